@@ -52,14 +52,14 @@ fn items(ctx: &Ctx) -> Vec<Item> {
         name: "ext/2w+r/crash".into(),
         seam: Some(cfg(2, 1, crash.clone(), crash.clone(), false)),
         race: None,
-        bounds: b(ctx.tier.pick(2, 4), 1),
+        bounds: b(ctx.tier.pick(3, 4), 1),
     });
     // failed calls + stale external reads
     v.push(Item {
         name: "ext/2w+r/fail+stale".into(),
         seam: Some(cfg(2, 1, vec![Answer::FailBefore], vec![Answer::FailBefore], true)),
         race: None,
-        bounds: b(ctx.tier.pick(2, 4), 1),
+        bounds: b(ctx.tier.pick(3, 4), 1),
     });
     // lost replies (safety oracles; availability is not promised there)
     v.push(Item {
